@@ -33,6 +33,16 @@ CHECKS = {
     design_ref="DESIGN.md section 6 (C02)", note=_MEM_NOTE,
     technique="Coq proof: reverse loop invariants ('no match at or after cur'), parametric as C01 + trace-level differential correspondence",
  ),
+ "C05": dict(
+    text="Props/C05.v: for every modelled entry point and ALL inputs and placements, every load of the trace lies inside the haystack resp. needle "
+         "slice and is aligned when marked aligned: byte search on every backend and through iterators (C05_memchr/C05_count/C05_iter), "
+         "is_equal family (C18), Rabin-Karp with ANY finder and argument needle (C05_rabinkarp_foreign), packed-pair find with an ARBITRARY "
+         "argument needle incl. longer than the haystack (C05_packedpair_foreign; pointer arithmetic is modelled checked, so the theorem says no "
+         "out-of-slice pointer is even formed), prefilters, Two-Way preprocessing (needle-only loads); Shift-Or/Two-Way/Pair use bounds-checked "
+         "indexing only (no Load events). The obligation C05_guard_form ties the theorem to the form of the confirm guard in the source.",
+    design_ref="DESIGN.md sections 6 (C05) and 7.2", note=_MEM_NOTE + " Not modelled: that intrinsics read exactly `width` bytes; provenance.",
+    technique="Coq proof: load-trace safety theorems (satq load_ok) for every routine, checked pointer arithmetic + correspondence of load traces + guard pages/bounds oracle for the failing-input search",
+ ),
  "C06": dict(
     text="C06_run: for every backend, needle set, haystack, start address and every history of next/next_back/size_hint/count calls the "
          "modelled iterator produces exactly what a double-ended queue of the match positions produces (next pops the front, next_back "
